@@ -13,11 +13,11 @@
      menc k w3 w2 w1 w0          | rc <prefix octets> -7 plen(w3..w0)        flenp_memory_encode (1-octet dummy memory)
      benc k size used off        | rc boff bused -7 <prefix> -7 pstart plen  flenp_buffer_encode
      bencn k size used off n     | same                                      flenp_buffer_encode_n
-     cuse k nc {size used off}   | rc -7 <prefix>                            flenp_chunks_use
+     cuse k act nc {size used off} | rc -7 <prefix>                          flenp_chunks_use (act = active index)
      msink k n                   | rc -7 <sink octets>                       flenp_memory_to_sink
      bsink k size used off       | rc boff bused -7 <sink>                   flenp_buffer_to_sink
      bsinkn k size used off n    | rc boff bused -7 <sink>                   flenp_buffer_to_sink_n
-     csink k nc {size used off}  | rc -7 <sink>                              flenp_chunks_to_sink
+     csink k act nc {size used off} | rc -7 <sink>                           flenp_chunks_to_sink
      mdec k cap f ns <stream>    | rc srcpos -7 <dest[0..cap)>               flenp_memory_from_source (f: source fragment size)
      bdec k size used off f ns <stream> | rc srcpos bused boff -7 <block[0..size)>   flenp_buffer_from_source
      sdec k f ns <stream>        | nframes { rc len <payload> }              flenp_decode_source_to_sink until the source ends
@@ -67,6 +67,7 @@ BencnObs(k, b, n) == IF n <= RestOf(b) /\ FitsN(k, n) THEN <<0, b[3] + n, b[2], 
                      ELSE <<-1>>
 RECURSIVE ChunkData(_)
 ChunkData(cs) == IF cs = <<>> THEN <<>> ELSE Unread(Head(cs)) \o ChunkData(Tail(cs))
+\* a chunk list designates the unread content of its chunks from the active one on (act chunks in front are done with)
 CuseObs(k, cs) == LET n == Len(ChunkData(cs)) IN IF FitsN(k, n) THEN <<0, -7>> \o P(k, n) ELSE <<-1>>
 
 (* into a sink: prefix then exactly the designated octets; reports the total; length >= 1 *)
@@ -153,7 +154,8 @@ Next == /\ phase[1] = "b" /\ ev' = Boot
                                    phase' = <<"c", op, k, w>>
               \/ op \in {"benc", "bsink"} /\ \E b \in Bufs : RestOf(b) >= 1 /\ phase' = <<"c", op, k, b>>
               \/ op \in {"bencn", "bsinkn"} /\ \E b \in Bufs, n \in 1..MaxSize + 1 : phase' = <<"c", op, k, b, n>>
-              \/ op \in {"cuse", "csink"} /\ \E cs \in SeqsUpTo({b \in Bufs : b[1] <= 3}, MaxChunks) : cs # <<>> /\ ChunkData(cs) # <<>> /\ phase' = <<"c", op, k, cs>>
+              \/ op \in {"cuse", "csink"} /\ \E cs \in SeqsUpTo({b \in Bufs : b[1] <= 3}, MaxChunks) : \E act \in 0..Len(cs) - 1 :
+                    cs # <<>> /\ ChunkData(Drop(cs, act)) # <<>> /\ phase' = <<"c", op, k, cs, act>>
               \/ op = "msink" /\ \E n \in Lens : phase' = <<"c", op, k, n>>
               \/ op = "mdec" /\ \E n \in 1..MaxSize, d \in {-1, 0, 1}, f \in 1..3, cut \in {0, 1} :
                                    n + d >= 0 /\ phase' = <<"c", op, k, n + d, f, IF cut = 1 THEN Take(Frame(k, Block(n)), Len(Frame(k, Block(n))) - 1) ELSE Frame(k, Block(n))>>
@@ -170,11 +172,11 @@ CaseLine ==
     IN CASE op = "menc" -> "menc " \o Join(<<k>> \o Q[4]) \o " | " \o Join(MencObs(k, Q[4][1], Q[4][2], Q[4][3], Q[4][4]))
          [] op = "benc" -> "benc " \o Join(<<k>> \o Q[4]) \o " | " \o Join(BencObs(k, Q[4]))
          [] op = "bencn" -> "bencn " \o Join(<<k>> \o Q[4] \o <<Q[5]>>) \o " | " \o Join(BencnObs(k, Q[4], Q[5]))
-         [] op = "cuse" -> "cuse " \o Join(<<k, Len(Q[4])>> \o FlatBufs(Q[4])) \o " | " \o Join(CuseObs(k, Q[4]))
+         [] op = "cuse" -> "cuse " \o Join(<<k, Q[5], Len(Q[4])>> \o FlatBufs(Q[4])) \o " | " \o Join(CuseObs(k, Drop(Q[4], Q[5])))
          [] op = "msink" -> "msink " \o Join(<<k, Q[4]>>) \o " | " \o Join(MsinkObs(k, Q[4]))
          [] op = "bsink" -> "bsink " \o Join(<<k>> \o Q[4]) \o " | " \o Join(BsinkObs(k, Q[4]))
          [] op = "bsinkn" -> "bsinkn " \o Join(<<k>> \o Q[4] \o <<Q[5]>>) \o " | " \o Join(BsinknObs(k, Q[4], Q[5]))
-         [] op = "csink" -> "csink " \o Join(<<k, Len(Q[4])>> \o FlatBufs(Q[4])) \o " | " \o Join(CsinkObs(k, Q[4]))
+         [] op = "csink" -> "csink " \o Join(<<k, Q[5], Len(Q[4])>> \o FlatBufs(Q[4])) \o " | " \o Join(CsinkObs(k, Drop(Q[4], Q[5])))
          [] op = "mdec" -> "mdec " \o Join(<<k, Q[4], Q[5], Len(Q[6])>> \o Q[6]) \o " | " \o Join(MdecObs(k, Q[4], Q[6]))
          [] op = "bdec" -> "bdec " \o Join(<<k>> \o Q[4] \o <<Q[5], Len(Q[6])>> \o Q[6]) \o " | " \o Join(BdecObs(k, Q[4], Q[6]))
          [] OTHER -> LET s == Frame(k, Block(Q[5])) \o Frame(k, SubSeq(Block(Q[5] + Q[6]), Q[5] + 1, Q[5] + Q[6]))
